@@ -290,6 +290,14 @@ def asarray(x, xp: Any = None, dtype: Any | None = None, **kwargs) -> Array:
             tensor = tensor.to(resolve_dtype(dtype, xp=xp))
         return tensor
 
+    if (
+        isinstance(x, (list, tuple))
+        and is_torch_namespace(xp)
+        and any(is_jax_array(v) for v in x)
+    ):
+        # torch.asarray cannot consume a sequence of JAX arrays
+        x = np.asarray([to_numpy(v) for v in x])
+
     if dtype is not None:
         kwargs["dtype"] = resolve_dtype(dtype, xp=xp)
     return xp.asarray(x, **kwargs)
